@@ -1,0 +1,69 @@
+//! Read-only snapshot accessors for the verification harness (`--cfg feoxdb_verif`).
+use std::sync::atomic::Ordering;
+use std::sync::Arc;
+
+use super::FeoxStore;
+
+#[derive(Debug, Clone)]
+pub struct VerifRecord {
+    pub key: Vec<u8>,
+    pub timestamp: u64,
+    pub ttl_expiry: u64,
+    pub value_len: usize,
+    pub sector: u64,
+    pub resident: bool,
+    pub refcount: u32,
+}
+
+impl FeoxStore {
+    /// Every record reachable from the hash index, sorted by key.
+    pub fn verif_snapshot(&self) -> Vec<VerifRecord> {
+        let mut records = Vec::new();
+        self.hash_table.scan(|_, record| {
+            records.push(VerifRecord {
+                key: record.key.clone(),
+                timestamp: record.timestamp,
+                ttl_expiry: record.ttl_expiry.load(Ordering::Acquire),
+                value_len: record.value_len,
+                sector: record.sector.load(Ordering::Acquire),
+                resident: record.get_value().is_some(),
+                refcount: record.refcount.load(Ordering::Acquire),
+            });
+        });
+        records.sort_by(|a, b| a.key.cmp(&b.key));
+        records
+    }
+
+    /// Keys of the ordered index, in index order.
+    pub fn verif_tree_keys(&self) -> Vec<Vec<u8>> {
+        self.tree.iter().map(|entry| entry.key().clone()).collect()
+    }
+
+    pub fn verif_free_runs(&self) -> Vec<(u64, u64)> {
+        self.free_space.read().verif_runs()
+    }
+
+    pub fn verif_clock_shard(&self, key: &[u8]) -> usize {
+        self.version_clock.shard_index(key)
+    }
+
+    pub fn verif_clock_value(&self, shard: usize) -> u64 {
+        self.version_clock.shards[shard].load(Ordering::Relaxed)
+    }
+
+    pub fn verif_format_version(&self) -> u32 {
+        self.format_version
+    }
+
+    pub fn verif_device_size(&self) -> u64 {
+        self.device_size
+    }
+
+    pub fn verif_ambiguous_legacy_markers(&self) -> u64 {
+        self.ambiguous_legacy_markers
+    }
+
+    pub fn verif_cache(&self) -> Option<Arc<crate::core::cache::ClockCache>> {
+        self.cache.clone()
+    }
+}
